@@ -51,8 +51,22 @@ class VLoop(asyncio.SelectorEventLoop):
     def __init__(self) -> None:
         self._vtime = 100.0
         self.time_jumps = 0
+        self._harness = 0
+        self.host_timers: list = []  # (when, handle) of timers created by the code under test
         super().__init__(selector=_VSelector(self))
         self._clock_resolution = 1e-9
+
+    def call_at(self, when, callback, *args, context=None):
+        h = super().call_at(when, callback, *args, context=context)
+        if not self._harness:
+            self.host_timers.append((when, h))
+            if len(self.host_timers) > 64:
+                del self.host_timers[:32]
+        return h
+
+    def pending_host_timers(self):
+        """Deadlines (> now) of not-yet-cancelled timers created by the code under test."""
+        return sorted(w for w, h in self.host_timers if not h.cancelled() and w > self._vtime)
 
     def time(self) -> float:
         return self._vtime
@@ -60,14 +74,30 @@ class VLoop(asyncio.SelectorEventLoop):
     # -- injection helpers ------------------------------------------------------------
     def io_at(self, when: float, cb, *args):
         """Run cb as an external event at virtual instant `when`, before timers due then."""
-        return self.call_at(max(when - EPS, self._vtime), cb, *args)
+        self._harness += 1
+        try:
+            return self.call_at(max(when - EPS, self._vtime), cb, *args)
+        finally:
+            self._harness -= 1
 
     def io_in(self, delay: float, cb, *args):
         return self.io_at(self._vtime + delay, cb, *args)
 
     def io_after(self, when: float, cb, *args):
         """Run cb in the first iteration after timers due at `when` (and their wake-ups)."""
-        return self.call_at(when + 2e-9, cb, *args)
+        self._harness += 1
+        try:
+            return self.call_at(when + 2e-9, cb, *args)
+        finally:
+            self._harness -= 1
+
+    def h_call_later(self, delay, cb, *args):
+        """call_later for harness-side models (not recorded as a host timer)."""
+        self._harness += 1
+        try:
+            return self.call_at(self._vtime + delay, cb, *args)
+        finally:
+            self._harness -= 1
 
 
 class VClock:
